@@ -7,9 +7,11 @@ from numba_scfg.core.datastructures.basic_block import (
     PythonASTBlock, PythonBytecodeBlock, RegionBlock, SyntheticBlock,
 )
 
+from ..families import as_named, entry_name, get_labeling
 from ..hier import Hier
 from ..runner import Acc
 from ..sweep import graph_case, graph_spec, staged, sweep
+from ..walk import product
 
 PROP = "C05"
 PAYLOADS = ("basic", "bytecode", "ast")
@@ -85,7 +87,10 @@ def compare(snap, scfg, stage, report):
 
 
 def check_graph(g, fam, acc: Acc, opts):
-    for payload in opts.get("payloads", PAYLOADS):
+    # names and payload types do not interact: relabelled instances carry plain blocks only
+    payloads = opts.get("payloads") or (PAYLOADS if get_labeling() is None else ("basic",))
+    G = as_named(g)
+    for payload in payloads:
         snap = None
         for stage, scfg, exc in staged(g, payload, include_input=True):
             if stage == "0":
@@ -103,6 +108,16 @@ def check_graph(g, fam, acc: Acc, opts):
                 acc.viol(PROP, f"{PROP}/{clause}", detail, (g, stage, payload), site=stage,
                          case=graph_case(g, fam, stage, payload=payload))
             h = compare(snap, scfg, stage, report)
+            if payload == "basic" and not seen:
+                # "same positional order, each successor ... renamed to an inserted block": the inserted block in slot i must
+                # stand for the ORIGINAL i-th successor.  Two inserted blocks that swapped places pass every literal comparison
+                # above; following each slot through the inserted synthetic blocks (by-name walk, all reachable valuations)
+                # tells them apart.
+                r = product(G, entry_name(), h, "name", max_violations=3)
+                acc.transitions += r.transitions
+                for clause, detail, path in r.violations:
+                    if clause.startswith("path/"):
+                        report("slot-stands-for-other-successor", f"{detail} (clause {clause} of the by-name walk)")
             acc.states += len(snap)
             acc.transitions += sum(len(v[1]) for v in snap.values()) + 1
             acc.outcomes.add((stage, len(h.flat) - len(snap)))
